@@ -63,7 +63,7 @@ Definition holds_as (want : arr Z) (x : jarr) (o : outcome) : bool :=
      9   the harness produced an input outside the model's well-formedness (harness error)
      10+c  property fails outside the domain, clause c, exactly as the model predicts (known defect class)
      20+c  property fails outside the domain, clause c, but not in the way the model predicts
-   clauses: 2 NB_shape_fits_coords_dtype | 3 NB_construct_shape_type *)
+   no clause is left (all former findings were repaired in /repo): 10+c / 20+c cannot occur *)
 Definition classify_as (want : arr Z) (x : jarr) (wfx : bool) (clause : option Z) (m : res (arr Z)) (o : outcome) : Z :=
   if negb wfx then 9
   else if (fst o =? 100) || (fst o =? 101) then 6
@@ -148,10 +148,9 @@ Definition judge_numba (c : jarr * (Z * bool) * bool * outcome) : Z :=
   | ACoo co =>
     let okin := forallb (fun d => 0 <=? d) (c_shape co) && canonicalb co in
     if construct then
-      classify j (okin && (c_fill co =? 0)) (if nb_construct_typed dt (c_shape co) then None else Some 3)
-               (nb_construct Z 0 dt co) o
+      classify j (okin && (c_fill co =? 0)) None (nb_construct Z 0 dt co) o
     else
-      classify j okin (if nb_shape_fits Z dt co then None else Some 2) (nb_roundtrip Z dt co) o
+      classify j okin None (nb_roundtrip Z dt co) o
   | _ => 9
   end.
 
